@@ -4,7 +4,7 @@
    with Path.list_of_destinations_from_last_segment and Path.make_copy_with_jump_to,
    variant = ScoreVariant.create_variant_part, id_suffix = update_note_ids_after_unfolding,
    variant_qd = the quarter durations create_variant_part sets. *)
-From PV Require Import Lib.Base Model.C09 Model.C09_api Proofs.C09 Proofs.C09_simple Proofs.C09_segs Proofs.C09_variant Proofs.C09_clip Proofs.C09_qd Proofs.C09_nav Proofs.C09_api Proofs.C09_reps Model.C09_hist Proofs.C09_hist Model.C09_heap Proofs.C09_heap.
+From PV Require Import Lib.Base Model.C09 Model.C09_api Proofs.C09 Proofs.C09_simple Proofs.C09_segs Proofs.C09_variant Proofs.C09_clip Proofs.C09_qd Proofs.C09_nav Proofs.C09_api Proofs.C09_reps Model.C09_hist Proofs.C09_hist Model.C09_heap Proofs.C09_heap Model.C09_cycle Proofs.C09_cycle.
 From Coq Require Import ZArith List Bool.
 Import ListNotations.
 #[local] Open Scope Z_scope.
@@ -411,3 +411,119 @@ Theorem skip_empty_variant_refuted :
   flat_map addrs cs2 = [2; 3; 4; 5]%nat /\ cell (append_at st2 2 77) 0 = [] /\ cell (append_at st2 2 77) 4 = [].
 Proof. exact skip_empty_variant_refuted_lemma. Qed.
 Print Assumptions skip_empty_variant_refuted.
+
+(* ---- Round j: jump destinations are consumed in cyclic order (Model/C09_cycle.v) ---- *)
+(* `dests_of to used nr ar` = Path.list_of_destinations_from_last_segment (the `dests` of Model/C09.v) of a
+   path standing on a segment with destination list `to` from which the destinations `used` were taken;
+   `cyc_used to q r` = q full rounds through `to` and r+1 further destinations *)
+
+(* the index computed from "the count-th occurrence of the last destination in destinations*100, modulo
+   the length" is the place of the last destination taken -- for ANY destination list (duplicates as
+   "1, 2" brackets give them) and any number of rounds below 100; IndexError from the 100th round on *)
+Theorem last_dest_index_cyclic : forall to q r, (r < length to)%nat ->
+  last_dest_index to (cyc_used to q r) = if (q <? 100)%nat then Some (Z.of_nat r) else None.
+Proof. exact last_dest_index_cyc. Qed.
+Print Assumptions last_dest_index_cyclic.
+
+(* maximal policy: exactly one destination, the next in cyclic order (the first again after the last) *)
+Theorem dests_maximal_cyclic : forall to q r, (r < length to)%nat -> (q < 100)%nat ->
+  dests_of to (cyc_used to q r) false true = Some [nth (next_place (length to) r) to (-3)].
+Proof. exact dests_maximal_cyclic_lemma. Qed.
+Print Assumptions dests_maximal_cyclic.
+
+(* all-variants policy: the destinations behind the last one taken; all of them after the last *)
+Theorem dests_all_variants_cyclic : forall to q r, (r < length to)%nat -> (q < 100)%nat ->
+  dests_of to (cyc_used to q r) false false = Some (if (S r <? length to)%nat then skipn (S r) to else to).
+Proof. exact dests_all_variants_cyclic_lemma. Qed.
+Print Assumptions dests_all_variants_cyclic.
+
+(* minimal policy: the last destination, whatever was taken before *)
+Theorem dests_minimal_last : forall to q r ar, (r < length to)%nat -> (q < 100)%nat ->
+  dests_of to (cyc_used to q r) true ar = Some [zlast to].
+Proof. exact dests_minimal_last_lemma. Qed.
+Print Assumptions dests_minimal_last.
+
+(* the 100-round limit (the mechanism behind the IndexError of known finding C09-K2) *)
+Theorem dests_hundred_rounds : forall to q r nr ar, (r < length to)%nat -> (100 <= q)%nat ->
+  dests_of to (cyc_used to q r) nr ar = None.
+Proof. exact dests_hundred_rounds_lemma. Qed.
+Print Assumptions dests_hundred_rounds.
+
+(* every path state of the search reads its destinations like that: `dests` depends on the table only
+   through the destination list of the last segment and the destinations used from it *)
+Theorem dests_is_local : forall st sg, find_seg (zlast (p_path st)) (p_segs st) = Some sg ->
+  dests st = dests_of (s_to sg) (used_of (zlast (p_path st)) (p_used st)) (p_norep st) (p_allrep st).
+Proof. exact dests_local. Qed.
+Print Assumptions dests_is_local.
+
+(* chaining: a segment left k times under the maximal policy (k up to 100 rounds) has used its
+   destinations in cyclic order *)
+Theorem depart_cyclic : forall to k, to <> [] -> (1 <= k <= 100 * length to)%nat ->
+  depart k to [] false true = Some (cyc_used to ((k - 1) / length to) ((k - 1) mod length to)).
+Proof. exact depart_cyclic_lemma. Qed.
+Print Assumptions depart_cyclic.
+
+(* the whole search, maximal policy, ANY segment table without a leap start (any number of repeats and
+   volta groups, nested in any way, any fuel): along every returned path every segment is left along
+   its destinations in cyclic order -- first, second, ..., last, first again; the last segment for END.
+   "The maximal unfolding plays each repeated section the notated number of times with the matching
+   ending", at the level of the table, nested repeats included *)
+Theorem maximal_walk_cyclic : forall fuel g ign ps,
+  leap_free g = true -> get_paths fuel g false true ign = Some ps ->
+  forall p, In p ps -> forall s sg, find_seg s g = Some sg ->
+    succs s p = [] \/ exists q r, (r < length (s_to sg))%nat /\ succs s p = cyc_used (s_to sg) q r.
+Proof. exact maximal_walk_cyclic_lemma. Qed.
+Print Assumptions maximal_walk_cyclic.
+
+(* ... and there is exactly one such path *)
+Theorem maximal_single_path : forall fuel g ign ps,
+  leap_free g = true -> get_paths fuel g false true ign = Some ps -> exists p, ps = [p].
+Proof. exact maximal_single_path_lemma. Qed.
+Print Assumptions maximal_single_path.
+
+(* minimal policy on ANY table without a leap start: one path, and every segment is always left for its LAST
+   destination ("the minimal one plays each section once with the last ending", table level, nested included) *)
+Theorem minimal_walk_last : forall fuel g ar ign ps,
+  leap_free g = true -> get_paths fuel g true ar ign = Some ps ->
+  exists p, ps = [p] /\
+    forall s sg, find_seg s g = Some sg -> forall d, In d (succs s p) -> d = zlast (s_to sg).
+Proof. exact minimal_walk_last_lemma. Qed.
+Print Assumptions minimal_walk_last.
+
+Theorem nested_repeat_minimal_example :
+  get_paths FUEL nested_table true false true = Some [[0; 1; 2; 3]] /\
+  succs 1 [0; 1; 2; 3] = [2] /\ succs 2 [0; 1; 2; 3] = [3].
+Proof. exact nested_minimal_example. Qed.
+Print Assumptions nested_repeat_minimal_example.
+
+(* not vacuous: |: m1 |: m2 :| m3 :| m4 m5 as _make_segments builds it *)
+Theorem nested_repeat_example :
+  leap_free nested_table = true /\
+  get_paths FUEL nested_table false true true = Some [[0; 1; 1; 2; 0; 1; 1; 2; 3]] /\
+  succs 1 [0; 1; 1; 2; 0; 1; 1; 2; 3] = cyc_used [1; 2] 1 1 /\
+  succs 2 [0; 1; 1; 2; 0; 1; 1; 2; 3] = cyc_used [0; 3] 0 1 /\
+  succs 3 [0; 1; 1; 2; 0; 1; 1; 2; 3] = cyc_used [END] 0 0.
+Proof. exact nested_example. Qed.
+Print Assumptions nested_repeat_example.
+
+(* the statements discriminate: the clamped index (seed j) offers the last destination again where the
+   first is due; the path it yields on the nested table (A B B C A B C D) is not cyclic at B; the index
+   by number of jumps (seed d) differs once the all-variants policy skipped a destination *)
+Theorem clamped_variant_refuted :
+  let to := [0; 2] in
+  dests_of to (cyc_used to 0 1) false true = Some [nth (next_place 2 1) to (-3)] /\
+  dests_clamped to (cyc_used to 0 1) <> Some [nth (next_place 2 1) to (-3)] /\
+  dests_clamped to (cyc_used to 0 1) = Some [2].
+Proof. exact clamped_variant_refuted_lemma. Qed.
+Print Assumptions clamped_variant_refuted.
+
+Theorem clamped_path_refuted :
+  succs 1 [0; 1; 1; 2; 0; 1; 2; 3] = [1; 2; 2] /\
+  forall q r, (r < 2)%nat -> succs 1 [0; 1; 1; 2; 0; 1; 2; 3] <> cyc_used [1; 2] q r.
+Proof. exact nested_clamped_path_refuted. Qed.
+Print Assumptions clamped_path_refuted.
+
+Theorem by_count_variant_refuted :
+  dests_of [2; 3; 4] [3] false true = Some [4] /\ dests_by_count [2; 3; 4] [3] = Some [3].
+Proof. exact by_count_variant_refuted_lemma. Qed.
+Print Assumptions by_count_variant_refuted.
